@@ -24,6 +24,7 @@ const (
 	qNoLeaf
 	qGarbled
 	qTrailing
+	qEmptyValue
 	nQ
 )
 
@@ -60,6 +61,9 @@ func Harness_C08_addChain() {
 			return &trillian.QueueLeafResponse{QueuedLeaf: &trillian.QueuedLogLeaf{}}, nil
 		case qGarbled:
 			return &trillian.QueueLeafResponse{QueuedLeaf: &trillian.QueuedLogLeaf{Leaf: &trillian.LogLeaf{LeafValue: vBytes("junk", 3)}}}, nil
+		case qEmptyValue:
+			// the leaf is echoed with every field but its value
+			return &trillian.QueueLeafResponse{QueuedLeaf: &trillian.QueuedLogLeaf{Leaf: &trillian.LogLeaf{ExtraData: in.Leaf.ExtraData, LeafIdentityHash: in.Leaf.LeafIdentityHash, LeafIndex: in.Leaf.LeafIndex}}}, nil
 		case qTrailing:
 			lv := append(append([]byte{}, in.Leaf.LeafValue...), vU8("extra"))
 			return &trillian.QueueLeafResponse{QueuedLeaf: &trillian.QueuedLogLeaf{Leaf: &trillian.LogLeaf{LeafValue: lv}}}, nil
